@@ -95,6 +95,15 @@ func run(c *vh.Ctx) error {
 		k, p := genCase(r, oracle, forceClash)
 		startJournal(k)
 		w := newWorld(k, drv)
+		// the source itself (built by trie.Trie.Commit + trie.Database.Commit) must be complete and readable
+		if si0 := k.reach(k.roots); si0.dangling {
+			w.orc = "source database lacks a node referenced from its own root (trie.Database.Commit did not write it)"
+		}
+		for _, root := range k.roots {
+			if _, err := w.sourceWalk(root); err != nil && w.orc == "" {
+				w.orc = fmt.Sprintf("source trie %x built by the real trie code cannot be read back: %v", root, err)
+			}
+		}
 		genSchedule(r, k, w, p)
 		if w.drvErr != nil {
 			return w.drvErr
